@@ -211,7 +211,7 @@ def conv_shard(rec, k, nshards, maxlen):
     g = core.guarded(oracle_conv)
     i = 0
     extra = [
-        "2021-03-07", "2021-13-45", "0000-01-01", "2020-02-29", "2021-02-29", "2021-1-01", "٢٠٢١-٠٣-٠٧", "2021-03-07\n",
+        "2021-03-07", "2021-13-45", "0000-01-01", "2020-02-29", "2021-02-29", "2021-1-01", "2021-03-7", "2021-3-7", "2021-03-007", "21-03-07", "٢٠٢١-٠٣-٠٧", "2021-03-07\n",
         "90478484-0988-45fc-91fe-757d90136892", "90478484-0988-45FC-91fe-757d90136892", "90478484098845fc91fe757d90136892",
         "9047848a-0988-45fc-91fe-757d90136892", "9047848A-0988-45fc-91fe-757d90136892", "9047848a-098B-45fc-91fe-757d90136892",
         "9047848a-0988-45fc-91FE-757d90136892", "9047848a-0988-45fc-91fe-757D90136892", "9047848a-0988-45fc-91fe-757d9013689",
@@ -338,7 +338,7 @@ def table_case(draw):
         path = path.replace("-03-07", "-13-45").replace("-02-29", "-02-30") if "-" in path else path
         for tok, val in zip(base, parts):
             if tok[0] == "p" and tok[2] == "date":
-                path = path.replace(val, draw(st.sampled_from(["2021-13-45", "0000-01-01", "2021-02-30", "2021-00-10"])), 1)
+                path = path.replace(val, draw(st.sampled_from(["2021-13-45", "0000-01-01", "2021-02-30", "2021-00-10", "2021-03-7", "2021-3-07", "2021-3-7", "202-03-07", "2021-03-007", "2021-003-07", "21-03-07", "2021/03/07", "2021-03-07T00", "+021-03-07", "2021-03--7", "2021-03-0٧"])), 1)
     elif mutation == "literal-char":
         lits = [tok[1] for tok in base if tok[0] == "lit" and len(tok[1]) > 1]
         if lits:
